@@ -163,6 +163,52 @@ func checkC06(c *Ctx) Meta {
 		} else {
 			c.Bad("C06-ORDINAL", key, c.Pos(f.Pos()), why)
 		}
+		// the keystore the key is filed under is the keystore that issued it: the receiver of the index
+		// refresh (updateManagedAddress) comes from the very selection (map lookup, range step, call of a
+		// selecting helper) the receiver of nextAddresses comes from — a second selection over the keystore
+		// map may pick another keystore (map iteration order), and the key is then unknown to its owner
+		{
+			key2 := "GenerateNewPublicKey:key-filed-under-the-issuing-keystore"
+			ums := callsInBody(f, "(*"+tAddrMgr+").updateManagedAddress")
+			selOf := func(v ssa.Value) map[ssa.Value]bool {
+				out := map[ssa.Value]bool{}
+				for x := range backSlice(v).vals {
+					switch y := x.(type) {
+					case *ssa.Lookup:
+						if backSlice(y.X).hasField(tKMC, "managedKeystores") {
+							out[x] = true
+						}
+					case *ssa.Next:
+						if rg, isR := y.Iter.(*ssa.Range); isR && backSlice(rg.X).hasField(tKMC, "managedKeystores") {
+							out[x] = true
+						}
+					case *ssa.Call:
+						if h := y.Call.StaticCallee(); h != nil && gNewFuncs[h] {
+							out[x] = true
+						}
+					}
+				}
+				return out
+			}
+			if na == nil || len(ums) == 0 {
+				c.Bad("C06-FOUND", key2, c.Pos(f.Pos()), "reason=anchor-missing: nextAddresses / updateManagedAddress calls")
+			} else {
+				sn := selOf(callRecv(na))
+				okSame := len(sn) > 0
+				for _, u := range ums {
+					for x := range selOf(callRecv(u)) {
+						if !sn[x] {
+							okSame = false
+						}
+					}
+				}
+				if okSame {
+					c.OK("C06-FOUND", key2, c.Pos(ums[0].Pos()), "nextAddresses and updateManagedAddress are called on the keystore of one and the same selection")
+				} else {
+					c.Bad("C06-FOUND", key2, c.Pos(ums[0].Pos()), "the new key is entered into the address index of a keystore selected separately from the one that issued it: with two keystores the selections can differ (map order), GetPublicKeyOrdinal and signing then do not find the key under its owner")
+				}
+			}
+		}
 		// lock + single Update
 		var upd *ssa.Call
 		var updClosure *ssa.Function
@@ -624,6 +670,11 @@ func checkC05(c *Ctx) Meta {
 	}
 	// the lock discipline of the wallet (C14) is a premise of "a key generated while locked signs after
 	// the next unlock" (issuance and unlock are each one critical section): run under this property's name
+	// after a restart the address table is rebuilt from the store's prefix scans: the store's own rules
+	// (C19: keys, prefixes, iterator buffers not kept) are premises of "signs after restarts"
+	c.pushAlias("C19-", "C05-LDB-")
+	checkC19(c)
+	c.popAlias()
 	c.pushAlias("C14-", "C05-LOCKS-")
 	checkC14(c)
 	c.popAlias()
